@@ -419,9 +419,12 @@ class Concat(Op):
             axis = "freq"
         n = info.n if axis == "time" else info.nchan
         parts = tape.composition(n, "concat.parts", maxparts=3) if n > 0 else (0,)
-        if len(parts) == 1 and n >= 2:
+        if len(parts) == 1 and n >= 2 and not tape.chance(1, 4, "concat.single"):
             a = 1 + tape.draw(n - 1, "concat.cut")
             parts = (a, n - a)
+        if axis == "time" and tape.chance(1, 6, "concat.emptypiece"):
+            # an empty piece at either end (valid: zero-length signals are contiguous)
+            parts = ((0,) + tuple(parts)) if tape.draw(2, "concat.emptyside") else (tuple(parts) + (0,))
         bad = tape.weighted([8, 1, 1], "concat.bad")   # ok / swapped order / gap
         return {"axis": axis, "parts": list(parts), "bad": ["ok", "swap", "gap"][bad],
                 "axis_form": tape.draw(2, "concat.axform")}
